@@ -7,7 +7,7 @@
 From Coq Require Import List ZArith QArith Qcanon Bool Arith.
 From Dimod Require Import Base.Util Model.Poly Model.Expr Model.ExprOps Model.CQMSpec Proofs.PolyFacts Proofs.ExprFacts Proofs.ExprViewFacts
   Proofs.RefineFacts Proofs.ExprSim Proofs.CqmSim Proofs.SpecEnergy
-  Model.AdjMore Model.ExprBulk Model.ExprLab Gen.Gen_CQM Proofs.ExprBulkFacts Proofs.LabSim Proofs.GenCQMTie.
+  Model.AdjMore Model.ExprBulk Model.ExprLab Gen.Gen_CQM Proofs.ExprBulkFacts Proofs.LabSim Proofs.GenCQMTie Model.ExprOrder Proofs.LabVars Proofs.OrderSim.
 From Coq Require Import Sorting.Sorted.
 Import ListNotations.
 Local Open Scope nat_scope.
@@ -438,6 +438,91 @@ Theorem C05_flip_marker_rule_generated :
 Proof. exact flip_marker_rule_generated. Qed.
 Print Assumptions C05_flip_marker_rule_generated.
 
+(* ===================================================================================================
+   "Exactly the terms": variable order and the ordered interaction list (explicit zeros included)
+   =================================================================================================== *)
+Theorem C05_step_exact : forall q sq oq o, State q sq -> SState q sq oq -> SState (mstep q o) (sstep sq o) (ostep oq o).
+Proof. exact step_sstate. Qed.
+Print Assumptions C05_step_exact.
+
+(* for EVERY history: same coefficients (State), and for the objective and every constraint the
+   variable order of the order-list run and the interaction list of the specification polynomial *)
+Theorem C05_cqm_refines_spec_exact :
+  forall ops,
+    State (mrun ops m_empty) (srun ops s_empty) /\ SState (mrun ops m_empty) (srun ops s_empty) (orun ops o_empty).
+Proof. exact history_exact. Qed.
+Print Assumptions C05_cqm_refines_spec_exact.
+
+(* the labelled model is at every moment an index-level history of resolved operations, so the same holds for it *)
+Theorem C05_cqm_refines_spec_labels_exact :
+  forall ops, exists iops,
+    l_q (lrun ops l_empty) = mrun iops m_empty
+    /\ State (mrun iops m_empty) (srun iops s_empty)
+    /\ SState (mrun iops m_empty) (srun iops s_empty) (orun iops o_empty).
+Proof. exact labelled_history_exact. Qed.
+Print Assumptions C05_cqm_refines_spec_labels_exact.
+
+(* one expression *)
+Theorem C05_view_edit_exact :
+  forall n vt op e p o, ExprInv n e -> eop_ok n op = true -> Str e p o ->
+    Str (apply_eop vt op e) (spec_eop vt op p) (ord_eop op o).
+Proof. exact str_eop. Qed.
+Print Assumptions C05_view_edit_exact.
+
+Theorem C05_reindex_exact :
+  forall n e p o v, ExprInv n e -> Str e p o ->
+    Str (m_reindex v e) (relabel (shift v) (remove_variable v p)) (ord_reindex v o).
+Proof. exact str_reindex. Qed.
+Print Assumptions C05_reindex_exact.
+
+(* ===================================================================================================
+   Variables._relabel (C13's sparse-dict model, read only): a mapping accepted by iter_safe_relabels
+   keeps the label list duplicate-free - the CQM relabel step no longer assumes it
+   =================================================================================================== *)
+Theorem C05_relabel_keeps_labels_distinct :
+  forall mp labels, NoDup labels -> NoDup (map fst mp) -> relabel_ok mp labels = true ->
+    NoDup (map (relabel_fun mp) labels).
+Proof. exact relabel_ok_nodup. Qed.
+Print Assumptions C05_relabel_keeps_labels_distinct.
+
+(* ===================================================================================================
+   Exception classes and the weight / penalty table, generated from the source
+   =================================================================================================== *)
+Theorem C05_set_weight_generated :
+  forall l w pen q k, find_con l (q_cons q) = Some k ->
+    set_weight l w pen q =
+    if (gen_weight_must_be_positive && match w with Some x => Qc_leb x 0 | None => false end)
+       || negb (forallb (fun v => gen_penalty_allowed (pen_of pen) (vt_of (q_vars q) v)) (pvars (k_p k)))
+    then (q, exc_of gen_exc_weight)
+    else (upd_con l (fun k => con_set_soft k (match w with Some x => Some (x, pen) | None => None end)) q, XNone).
+Proof. exact set_weight_generated. Qed.
+Print Assumptions C05_set_weight_generated.
+
+Theorem C05_add_constraint_weight_atomic_generated :
+  forall q0 q k w pen, Qc_leb w 0 = true -> append_con q0 q k (Some (w, pen)) = (q0, exc_of gen_exc_weight).
+Proof. exact add_constraint_weight_atomic_generated. Qed.
+Print Assumptions C05_add_constraint_weight_atomic_generated.
+
+Theorem C05_change_vartype_exception_generated :
+  forall vt l q q' e, change_vartype vt l q = (q', e) ->
+    e = XNone \/ (q' = q /\ (e = exc_of gen_exc_unknown_variable \/ e = exc_of gen_exc_change_vartype_unsupported)).
+Proof. exact change_vartype_exception_generated. Qed.
+Print Assumptions C05_change_vartype_exception_generated.
+
+Theorem C05_unknown_variable_exception_generated :
+  forall l q, has_var l (q_vars q) = false -> in_discrete l q = false ->
+    remove_variable_py l q = (q, exc_of gen_exc_unknown_variable)
+    /\ fix_one l 0%Qc q = (q, exc_of gen_exc_unknown_variable)
+    /\ flip l q = (q, exc_of gen_exc_unknown_variable).
+Proof. exact unknown_variable_exception_generated. Qed.
+Print Assumptions C05_unknown_variable_exception_generated.
+
+Theorem C05_duplicate_label_exception_generated :
+  forall d s rhs l soft q, has_con l (q_cons q) = true ->
+    add_con_model d s rhs l soft q = (q, exc_of gen_exc_duplicate_constraint_label).
+Proof. exact duplicate_label_exception_generated. Qed.
+Print Assumptions C05_duplicate_label_exception_generated.
+
 (* --- the hypotheses are satisfiable on non-trivial data --- *)
 Definition ex_e : mexpr :=
   m_add_quadratic (fun _ => INTEGER) 4 1 (qc 3 1) (m_add_linear 3 (qc 5 2) (m_add_linear 0 (qc 1 1) e_empty)).
@@ -487,4 +572,10 @@ Example C05_example_labelled_history :
   /\ poly_coeff_eqb 10 (relabel (Lfun (l_labels (lrun ex_lab_hist l_empty))) (abs_expr (m_obj (l_q (lrun ex_lab_hist l_empty)))))
                     (sl_obj (lsrun ex_lab_hist sl_empty)) = true
   /\ e_vars (m_remove_variables_code [4; 0; 1]%nat ex_e) = [3%nat].
+Proof. vm_compute. repeat split; reflexivity. Qed.
+
+Example C05_example_exact :
+  o_obj (orun ex_hist o_empty) = e_vars (m_obj (mrun ex_hist m_empty))
+  /\ qpairs (abs_expr (m_obj (mrun ex_hist m_empty))) = qpairs (s_obj (srun ex_hist s_empty))
+  /\ o_cons (orun ex_hist o_empty) = map (fun k => e_vars (mc_e k)) (m_cons (mrun ex_hist m_empty)).
 Proof. vm_compute. repeat split; reflexivity. Qed.
